@@ -1,6 +1,8 @@
 import PyttbModel.Core.Codec
 import PyttbModel.Alg.Samplers
 import PyttbModel.Alg.Optim
+import PyttbModel.Alg.SamplersNoRepl
+import PyttbModel.Alg.GcpSetup
 open Lean Pyttb Pyttb.Codec
 namespace Pyttb.Driver.C13
 
@@ -124,7 +126,8 @@ def bestIndex (L : Loop α) : Nat :=
 
 def loopJ (sc : SC α) (L : Loop α) : Json :=
   let r := report L
-  Json.mkObj [("factors", encFactors sc r.model.factors), ("f_est_trace", listJ sc.enc r.fEstTrace),
+  Json.mkObj [("factors", encFactors sc r.model.factors), ("weights", listJ sc.enc r.model.weights),
+    ("f_est_trace", listJ sc.enc r.fEstTrace),
     ("step_trace", listJ sc.enc r.stepTrace), ("n_epoch", toJson r.nEpoch),
     ("nfails", toJson L.opt.nfails), ("n_boundaries", toJson L.seen.length),
     ("best_index", toJson (bestIndex L)), ("f_best", sc.enc L.fPrev),
@@ -175,6 +178,21 @@ def stepOp (sc : SC α) (sqrt : Option (α → α)) (j : Json) : R Json := do
 
 end solve
 
+def decObjective (j : Json) : R GcpSetup.Objective := do
+  let s ← asStr j
+  match s with
+  | "GAUSSIAN" => .ok .gaussian
+  | "BERNOULLI_ODDS" => .ok .bernoulliOdds
+  | "BERNOULLI_LOGIT" => .ok .bernoulliLogit
+  | "POISSON" => .ok .poisson
+  | "POISSON_LOG" => .ok .poissonLog
+  | "RAYLEIGH" => .ok .rayleigh
+  | "GAMMA" => .ok .gamma
+  | "HUBER" => .ok .huber
+  | "NEGATIVE_BINOMIAL" => .ok .negativeBinomial
+  | "BETA" => .ok .beta
+  | _ => .error s!"bad objective {s}"
+
 end Pyttb.Driver.C13
 
 namespace Pyttb.Driver
@@ -203,6 +221,28 @@ def ops13 : List (String × Op) := [
       ("need", exceptJ (fun (n : Nat) => toJson n)
         (zerosNeed Rat.ceil rate samples (numel shape) (numel shape - nz.length))),
       ("subs", exceptJ intMatJ (zerosS Rat.floor Rat.ceil shape nz samples rate draws))])),
+  ("c13_zeros_norepl", fun j => do
+    let shape ← field j "shape" >>= asNats
+    let nz ← field j "nz_idx" >>= asNats
+    let samples ← field j "samples" >>= asNat
+    let rate ← field j "rate" >>= asRat
+    let draws ← field j "draws" >>= asRatMat
+    .ok (exceptJ intMatJ (zerosNoReplS Rat.floor Rat.ceil shape nz samples rate draws))),
+  ("c13_setup", fun j => do
+    -- data: null | {"sparse": bool, "vals": [...]} (what setup reads); param: null | number
+    let obj ← field j "objective" >>= decObjective
+    let data ← match fieldOpt j "data" with
+      | none => pure none
+      | some d => do
+        let sp ← field d "sparse" >>= asBool
+        let vals ← field d "vals" >>= asRats
+        pure (some (⟨sp, vals⟩ : GcpSetup.DataView Rat))
+    let param ← match fieldOpt j "param" with
+      | none => pure none
+      | some v => do let q ← asRat v; pure (some q)
+    .ok (exceptJ (fun (lb : Option Rat) => match lb with
+        | none => Json.str "-inf"
+        | some q => ratJ q) (GcpSetup.setupS Rat.floor obj data param))),
   ("c13_semistrat", fun j => do
     let S ← field j "data" >>= asSparse
     let a ← field j "num_nonzeros" >>= asNat
